@@ -119,6 +119,7 @@ type Cluster struct {
 	Out    *TraceWriter
 	Rng    *mrand.Rand
 	lineNo int
+	Tainted bool // script driver: a delivery under a real node's identity had no real counterpart
 	OnLine func(l *Line)
 }
 
